@@ -4,6 +4,7 @@ mod drivers;
 mod notation;
 mod rsproj;
 mod run;
+mod tsproj;
 mod util;
 
 fn main() {
@@ -29,6 +30,8 @@ fn main() {
         "c13probe" => drivers::c13::probe(&rest),
         "c14" => drivers::c14::drive(&rest),
         "c17" => drivers::c17::drive(&rest),
+        "c18" => drivers::c18::drive(&rest),
+        "c19" => drivers::c19::drive(&rest),
         "pipe" => drivers::pipe::drive(&rest),
         "c15" => drivers::c15::drive(&rest),
         "c16" => drivers::c16::drive(&rest),
